@@ -548,7 +548,7 @@ fn collect_vars(e: &compiler::tast::Expr, out: &mut Vec<(usize, usize, String)>)
 /// extra programs for the hover oracle: names that mean different things in different name spaces
 pub const HOVER_EXTRA: [&str; 2] = [
     // locals and fields spelled like functions; a generic function referenced at two instances
-    "struct Buf { size: int64, len: int32 }\n\nfn len(s: string) -> int32 { 3 }\nfn size(b: Buf) -> int64 { b.size }\nfn id[T](x: T) -> T { x }\nfn twice(f: (int32) -> int32, x: int32) -> int32 { f(f(x)) }\nfn inc(x: int32) -> int32 { x + 1 }\n\nfn main() {\n    let len = 5;\n    let b = len + 1;\n    let buf = Buf { size: 2i64, len: 1 };\n    let size = buf.len;\n    let s = size + buf.len;\n    let k = id(1);\n    let t = id(\"s\");\n    let inc2 = twice(inc, 1);\n    let id2 = |id: int32| id + len;\n    string_println(t + int32_to_string(b + s + k + inc2 + id2(1) + len(\"x\")) + int64_to_string(size(buf)))\n}\n",
+    "struct Buf { size: int64, len: int32 }\n\nfn len(s: string) -> int32 { 3 }\nfn size(b: Buf) -> int64 { b.size }\nfn id[T](x: T) -> T { x }\nfn twice(f: (int32) -> int32, x: int32) -> int32 { f(f(x)) }\nfn inc(x: int32) -> int32 { x + 1 }\n\nfn main() {\n    let buf = Buf { size: 2i64, len: 1 };\n    let l0 = len(\"x\");\n    let s0 = size(buf);\n    let len = 5;\n    let b = len + 1;\n    let size = buf.len;\n    let s = size + buf.len;\n    let k = id(1);\n    let t = id(\"s\");\n    let inc2 = twice(inc, 1);\n    let id2 = |id: int32| id + len;\n    string_println(t + int32_to_string(b + s + k + inc2 + id2(1) + l0) + int64_to_string(s0))\n}\n",
     // the same name bound at several depths with different types
     "enum Opt { Non, Som(int32) }\n\nfn pick(x: string) -> int32 {\n    let x = string_len(x);\n    let r = match Opt::Som(x) {\n        Opt::Som(x) => {\n            let x = x > 0;\n            if x { 1 } else { 0 }\n        },\n        Opt::Non => x,\n    };\n    let f = |x: bool| if x { r } else { 0 };\n    f(x > 1) + x\n}\n\nfn main() {\n    string_println(int32_to_string(pick(\"ab\")))\n}\n",
 ];
@@ -618,7 +618,9 @@ impl Family for HoverAll {
             if *e > text.len() || *s >= *e {
                 continue;
             }
-            let spelled = &text[*s..*e];
+            // a node's range may include trailing trivia
+            let spelled = text[*s..*e].trim_end();
+            let e = &(*s + spelled.len());
             // only plain identifiers: on a path `A::b` the segments mean different things
             if !spelled.chars().all(|c| c.is_alphanumeric() || c == '_') {
                 continue;
